@@ -646,6 +646,39 @@ def gen_oend_line(rng, scenario=None):
     return "oend %s %s %d %d %d %s" % (fmt_params(*e0), fmt_params(*e1), seq0, seq1, newmid, " ".join(steps))
 
 
+def _oscore_opt_of(hexmsg):
+    """value of the OSCORE option (9) of a UDP-framed message given as hex, or None"""
+    try:
+        b = bytes.fromhex(hexmsg)
+        tkl = b[0] & 15
+        i, num = 4 + tkl, 0
+        while i < len(b) and b[i] != 0xFF:
+            d, l = b[i] >> 4, b[i] & 15
+            i += 1
+            if d == 13: d = 13 + b[i]; i += 1
+            elif d == 14: d = 269 + (b[i] << 8) + b[i + 1]; i += 2
+            if l == 13: l = 13 + b[i]; i += 1
+            elif l == 14: l = 269 + (b[i] << 8) + b[i + 1]; i += 2
+            num += d
+            if num == 9:
+                return b[i:i + l]
+            i += l
+    except Exception:
+        return None
+    return None
+
+
+def _own_piv_variant(a, b):
+    """a, b: `resp=<hex>` fields of the implementation and of S.  True when the implementation's response carries its OWN Partial IV
+    where S's uses the request's nonce (empty OSCORE option): RFC 8613 8.3 allows a server to use its own Partial IV in ANY response
+    (D14.5 only fixes when libcoap MUST do so) - libcoap's one association table keeps is_observe across directions, so a plain
+    response for a token that also carried a registration in the other direction gets one."""
+    if not (a and b and a.startswith("resp=") and b.startswith("resp=")) or "fail" in (a, b):
+        return False
+    oa, ob = _oscore_opt_of(a[5:]), _oscore_opt_of(b[5:])
+    return oa is not None and ob is not None and len(ob) == 0 and len(oa) >= 2 and (oa[0] & 7) == len(oa) - 1 and (oa[0] & 0x18) == 0
+
+
 def oend_collision(w):
     """does the oend line (words) use one token in BOTH directions? (requests by endpoint 0 and by endpoint 1)"""
     toks = {0: set(), 1: set()}
@@ -1141,6 +1174,8 @@ def judge(ctx, c):
                 continue
             if a in ("resp=fail", "uresp=rej") and oend_collision(c["input"].split()) and ml == it and itr.strip() == mtr.strip():
                 break     # open finding c14-token-shared-across-directions (known()): libcoap does LESS than the reference
+            if _own_piv_variant(a, b) and ml == it and itr.strip() == mtr.strip() and oend_collision(c["input"].split()):
+                continue  # own Partial IV instead of the request's nonce: allowed by RFC 8613 (I = M; the peer's view is compared next)
             return ("spec", "client and server on one session, step %s: implementation %s but the RFC 8613 reference (a response is "
                             "protected with the nonce of the RECEIVED request it answers or its own Partial IV) gives %s" % (
                                 diff_step(it, s), short(a), short(b)))
@@ -1150,6 +1185,8 @@ def judge(ctx, c):
         if itr.strip() != mtr.strip():
             return ("tie", "session->associations (is_client): implementation %s but model M says %s" % (
                 first_diff(itr.strip(), mtr.strip()), first_diff(mtr.strip(), itr.strip())))
+        if it != s and all(x == y or _own_piv_variant(x, y) for x, y in zip(fi, fs)) and len(fi) == len(fs):
+            return None
         if it != s:
             return ("spec", "KNOWN c14-token-shared-across-directions: %s where the reference gives %s" % (field_diff(it, s), field_diff(s, it)))
         return None
